@@ -3,7 +3,7 @@ import os
 import pickle
 import time
 
-from mc.ctx import HarnessError
+from mc.ctx import FailFast, HarnessError, _failfast_flag
 
 
 def allgather(ctx, name, payload, timeout_s=3600):
@@ -20,6 +20,9 @@ def allgather(ctx, name, payload, timeout_s=3600):
     while not all(os.path.exists(w) for w in want):
         if time.time() - t0 > timeout_s:
             raise HarnessError("barrier %s timed out" % name)
+        flag = _failfast_flag()
+        if flag and os.path.exists(flag):
+            raise FailFast()
         time.sleep(0.05)
     out = []
     for w in want:
